@@ -1,6 +1,7 @@
 import SiaProofs.Lemmas.LedgerC08V1
 import SiaProofs.Lemmas.LedgerC08V2
 import SiaProofs.Lemmas.LedgerC02Block
+import SiaProofs.Lemmas.LedgerC02Commit
 import SiaProofs.Props.C08
 /-!
 # C02 — no double spend or double resolution (ledger model)
@@ -256,5 +257,149 @@ theorem c02_block_no_repeats (L : Ledger) (b : Block) (pid : Id) (ms : Mid) (h :
     · exact sc2.2.1 id hid
     · exact sf2.2.1 id hid
   · exact fc2.2.1 id hid
+
+-- ================================================================= different blocks
+
+/-- the ids of the diffs of each kind are pairwise distinct (every diff is found through the
+`elements` index of its own id; see the remark at `c02_commit_removes_spent_partial`) -/
+structure DiffIdsUnique (ms : Mid) : Prop where
+  sc : (ms.sces.map (·.e.id)).Nodup
+  sf : (ms.sfes.map (·.e.id)).Nodup
+  fc1 : (ms.fces.map (·.e.id)).Nodup
+  fc2 : (ms.v2fces.map (·.e.id)).Nodup
+
+/-- After `commit`, the id of every diff marked spent / resolved is no longer live: the next
+ledger has no siacoin element, siafund element, v1 or v2 contract with that id.
+
+PARTIAL: assumes `DiffIdsUnique ms`.  Full statement: the same for every `ms` reached by
+`midApplyBlock (newMid L) b`; it needs the invariant "the diff stored at index `i` of a slice is
+the one whose id maps to `i` in `elements`", which holds for reachable mid-states as long as ids of
+different element kinds do not collide (ids are hashes in core; in the model they are numbers
+supplied by the harness). -/
+theorem c02_commit_removes_spent_partial (ms : Mid) (bid : Id) (hu : DiffIdsUnique ms) :
+    (∀ d ∈ ms.sces, d.spent = true → ∀ e ∈ (ms.commit bid).sc, e.id ≠ d.e.id) ∧
+    (∀ d ∈ ms.sfes, d.spent = true → ∀ e ∈ (ms.commit bid).sf, e.id ≠ d.e.id) ∧
+    (∀ d ∈ ms.fces, d.resolved = true → ∀ e ∈ (ms.commit bid).fc1, e.id ≠ d.e.id) ∧
+    (∀ d ∈ ms.v2fces, d.resolution.isSome = true → ∀ e ∈ (ms.commit bid).fc2, e.id ≠ d.e.id) := by
+  refine ⟨?_, ?_, ?_, ?_⟩
+  · intro d hd hs e he heq
+    rcases (commit_sc_mem ms bid e).1 he with ⟨_, h⟩ | ⟨d', hd', hs', rfl⟩
+    · exact h d hd heq.symm
+    · have := eq_of_nodup_map (fun d : ScDiff => d.e.id) hu.sc hd' hd heq
+      subst this; rw [hs] at hs'; cases hs'
+  · intro d hd hs e he heq
+    rcases (commit_sf_mem ms bid e).1 he with ⟨_, h⟩ | ⟨d', hd', hs', rfl⟩
+    · exact h d hd heq.symm
+    · have := eq_of_nodup_map (fun d : SfDiff => d.e.id) hu.sf hd' hd heq
+      subst this; rw [hs] at hs'; cases hs'
+  · intro d hd hs e he heq
+    rcases (commit_fc1_mem ms bid e).1 he with ⟨_, h⟩ | ⟨d', hd', hs', rfl⟩
+    · exact h d hd heq.symm
+    · rw [Fc1Diff.current_id] at heq
+      have := eq_of_nodup_map (fun d : Fc1Diff => d.e.id) hu.fc1 hd' hd heq
+      subst this; rw [hs] at hs'; cases hs'
+  · intro d hd hs e he heq
+    rcases (commit_fc2_mem ms bid e).1 he with ⟨_, h⟩ | ⟨d', hd', hs', rfl⟩
+    · exact h d hd heq.symm
+    · have hid : d'.e.id = d.e.id := by
+        cases hr : d'.revision <;> simp only [hr] at heq <;> exact heq
+      have := eq_of_nodup_map (fun d : Fc2Diff => d.e.id) hu.fc2 hd' hd hid
+      subst this; rw [hs'] at hs; cases hs
+
+/-- If no live element of ledger `L` carries `id` (e.g. it was consumed by an earlier block), then
+* a v2 transaction presenting a non-ephemeral siacoin / siafund element record with that id, or
+  revising / resolving a v2 contract record with that id — whatever proof it carries, the record
+  fails the membership check — is not accepted (siacoins: rejected without panic);
+* a block whose v1 supplement contains a record with that id (siacoin input, siafund input,
+  revised contract, proven contract, expiring contract) is rejected by `validateSupplement`. -/
+theorem c02_spent_in_earlier_block_rejected (L : Ledger) (id : Id) :
+    ((∀ e ∈ L.sc, e.id ≠ id) →
+      (∀ (ms : Mid) (t : Txn2) (mw : Nat) (sci : ScIn2), ms.base = L → sci ∈ t.scIns → sci.parent.id = id →
+        sci.parent.leaf ≠ none → Rejected (validateV2Transaction ms t mw)) ∧
+      (∀ (b : Block) (t : Txn1) (e : ScElem), t ∈ b.txns1 → e ∈ t.supp.scIns → e.id = id →
+        Rejected (validateSupplement L b))) ∧
+    ((∀ e ∈ L.sf, e.id ≠ id) →
+      (∀ (ms : Mid) (t : Txn2) (mw : Nat) (sfi : SfIn2), ms.base = L → sfi ∈ t.sfIns → sfi.parent.id = id →
+        sfi.parent.leaf ≠ none → NotOk (validateV2Transaction ms t mw)) ∧
+      (∀ (b : Block) (t : Txn1) (e : SfElem), t ∈ b.txns1 → e ∈ t.supp.sfIns → e.id = id →
+        Rejected (validateSupplement L b))) ∧
+    ((∀ e ∈ L.fc1, e.id ≠ id) →
+      (∀ (b : Block) (t : Txn1) (e : Fc1Elem), t ∈ b.txns1 → e.id = id →
+        (e ∈ t.supp.revised ∨ e ∈ t.supp.proofs.map (·.1)) → Rejected (validateSupplement L b)) ∧
+      (∀ (b : Block) (e : Fc1Elem), e ∈ b.expiring.map (·.1) → e.id = id → Rejected (validateSupplement L b))) ∧
+    ((∀ e ∈ L.fc2, e.id ≠ id) →
+      (∀ (ms : Mid) (t : Txn2) (mw : Nat), ms.base = L →
+        ((∃ r ∈ t.revs, r.parent.id = id) ∨ (∃ r ∈ t.ress, r.parent.id = id)) →
+        NotOk (validateV2Transaction ms t mw))) := by
+  have supp : ∀ b, ¬ SuppRules L b → Rejected (validateSupplement L b) := fun b hn =>
+    rejected_of_notOk_noPanic (fun _ h => hn ((validateSupplement_ok_iff L b).1 h)) (validateSupplement_noPanic L b)
+  refine ⟨fun hl => ⟨?_, ?_⟩, fun hl => ⟨?_, ?_⟩, fun hl => ⟨?_, ?_⟩, fun hl => ?_⟩
+  · intro ms t mw sci hb hm hid hleaf
+    apply v2Txn_rejected_of_sc
+    apply validateV2Siacoins_rejected
+    rintro ⟨h1, _⟩
+    have hp := (h1 sci hm).present
+    unfold ScIn2Present at hp
+    split at hp
+    · rename_i hl'; exact hleaf hl'
+    · rw [hb] at hp
+      exact hl _ (by simpa [Ledger.hasSc] using hp) hid
+  · intro b t e ht he hid
+    exact supp b (fun hr => hl e (hr.sc t ht e he) hid)
+  · intro ms t mw sfi hb hm hid hleaf
+    apply v2Txn_notOk_of_sf
+    intro _ hr
+    have hp := (((validateV2Siafunds_ok_iff ms t).1 hr).1 sfi hm).present
+    unfold SfIn2Present at hp
+    split at hp
+    · rename_i hl'; exact hleaf hl'
+    · rw [hb] at hp
+      exact hl _ (by simpa [Ledger.hasSf] using hp) hid
+  · intro b t e ht he hid
+    exact supp b (fun hr => hl e (hr.sf t ht e he) hid)
+  · intro b t e ht hid he
+    refine supp b (fun hr => ?_)
+    rcases he with he | he
+    · exact hl e (hr.revised t ht e he) hid
+    · obtain ⟨p, hp, rfl⟩ := List.mem_map.1 he
+      exact hl _ (hr.proofs t ht p hp) hid
+  · intro b e he hid
+    refine supp b (fun hr => ?_)
+    obtain ⟨p, hp, rfl⟩ := List.mem_map.1 he
+    exact hl _ (hr.expiring p hp) hid
+  · intro ms t mw hb hex
+    apply v2Txn_notOk_of_fc
+    intro _ hr
+    obtain ⟨_, h1, _, h2, _⟩ := (validateV2FileContracts_ok_iff ms t).1 hr
+    rcases hex with ⟨r, hm, hid⟩ | ⟨r, hm, hid⟩
+    · have hp := (h1 r hm).present
+      rw [hb] at hp
+      exact hl _ (by simpa [Ledger.hasFc2] using hp) hid
+    · have hp := (h2 r hm).present
+      rw [hb] at hp
+      exact hl _ (by simpa [Ledger.hasFc2] using hp) hid
+
+/-- An *ephemeral* v2 siacoin input (no leaf index) is only accepted if an output with its id was
+created earlier in the same block — so it cannot refer to an output of an earlier block at all. -/
+theorem c02_ephemeral_needs_in_block_creation (ms : Mid) (sci : ScIn2) (h : validateEphemeralSc ms sci = .ok ()) :
+    ∃ j, ms.lookup sci.parent.id = some j ∧ j < ms.sces.length ∧ (ms.sces.getD j default).created = true := by
+  unfold validateEphemeralSc at h
+  split at h
+  · exact absurd h (reject_ne_ok _ _)
+  · rename_i j hj
+    split at h
+    · exact absurd h (reject_ne_ok _ _)
+    · rename_i hc
+      refine ⟨j, hj, ?_, ?_⟩
+      · exact Nat.lt_of_not_ge (fun hge => hc (Or.inl hge))
+      · exact Classical.not_not.1 (fun hn => hc (Or.inr hn))
+
+-- the output e0 is spent in a block; in the next ledger the same record is refused, for v1 and v2 alike
+example : (do let (L', _) ← applyBlock (Ex.L 15) { (default : Block) with v2 := some (15, true, [tSpend2 Ex.e0]) }
+              validateV2Transaction (newMid L') (tSpend2 Ex.e0) 100) =
+    .error (.reject "siacoin input spends output not present in the accumulator") := by decide
+example : (do let (L', _) ← applyBlock (Ex.L 15) { (default : Block) with v2 := some (15, true, [tSpend2 Ex.e0]) }
+              validateSupplement L' { (default : Block) with txns1 := [tSpend1 Ex.e0 0] }) =
+    .error (.reject "siacoin element is not present in the accumulator") := by decide
 
 end C02
